@@ -163,7 +163,7 @@ async fn run_case(sock: PathBuf, ops: Vec<String>) -> Vec<String> {
                         let (r, w) = stream.into_split();
                         let mut rd = BufReader::new(r).lines();
                         // the Welcome carries the client id
-                        let welcome = tokio::time::timeout(Duration::from_secs(2), rd.next_line()).await.expect("welcome timeout").expect("io").expect("eof");
+                        let welcome = tokio::time::timeout(Duration::from_secs(20), rd.next_line()).await.expect("welcome timeout").expect("io").expect("eof");
                         let v: Value = serde_json::from_str(&welcome).expect("welcome json");
                         let cid = v["welcome"]["clientId"].as_str().expect("cid").to_owned();
                         cids.insert(sn, cid.clone());
@@ -175,7 +175,7 @@ async fn run_case(sock: PathBuf, ops: Vec<String>) -> Vec<String> {
                             c.wr.shutdown().await.ok();
                             // the server ends the session: wait for its side of the socket to close
                             if !c.closed {
-                                let deadline = tokio::time::Instant::now() + Duration::from_secs(3);
+                                let deadline = tokio::time::Instant::now() + Duration::from_secs(20);
                                 loop {
                                     match tokio::time::timeout_at(deadline, c.rd.next_line()).await {
                                         Ok(Ok(Some(line))) => out.push(format!("{sn}:{}", canon(&line, &cids))),
@@ -289,13 +289,13 @@ async fn run_case(sock: PathBuf, ops: Vec<String>) -> Vec<String> {
                                 let stream = UnixStream::connect(&sock).await.ok()?;
                                 let (r, mut w) = stream.into_split();
                                 let mut rd = BufReader::new(r).lines();
-                                let _welcome = tokio::time::timeout(Duration::from_secs(3), rd.next_line()).await.ok()?.ok()?;
+                                let _welcome = tokio::time::timeout(Duration::from_secs(20), rd.next_line()).await.ok()?.ok()?;
                                 barrier.wait().await;
                                 w.write_all(line.as_bytes()).await.ok()?;
                                 w.write_all(b"\n").await.ok()?;
                                 w.flush().await.ok()?;
                                 loop {
-                                    let l = tokio::time::timeout(Duration::from_secs(5), rd.next_line()).await.ok()?.ok()??;
+                                    let l = tokio::time::timeout(Duration::from_secs(20), rd.next_line()).await.ok()?.ok()??;
                                     let v: Value = serde_json::from_str(&l).ok()?;
                                     if let Some(a) = v.get("ack") { if a["transactionId"] == json!(1) { return Some("ack".to_owned()); } }
                                     if let Some(e) = v.get("err") { if e["transactionId"] == json!(1) { return Some(format!("err{}", e["errorCode"])); } }
